@@ -284,7 +284,16 @@ func (e *Exec) addPC(c *sym.Term) {
 func (e *Exec) feasibleM(c *sym.Term) (sym.Result, map[string]uint64) {
 	e.flush()
 	e.res.Queries++
-	r, m := e.S.Check(c, e.Sh.Cfg.FeasTimeoutMs, e.nondets)
+	to := e.Sh.Cfg.FeasTimeoutMs
+	if to > 2000 {
+		to = 2000
+	}
+	r, m := e.S.Check(c, to, e.nondets)
+	if r == sym.Unknown {
+		// the long-lived incremental solver gave up quickly; a fresh one-shot process (different
+		// tactic pipeline) usually decides the same query at once
+		r, m = e.oneShotT(c, e.Sh.Cfg.FeasTimeoutMs)
+	}
 	if r == sym.Sat && m == nil {
 		m = map[string]uint64{}
 	}
@@ -455,6 +464,12 @@ func (e *Exec) concretize(t *sym.Term) uint64 {
 		e.res.Queries++
 		probe := sym.Var(fmt.Sprintf("conc!%d", t.ID), t.W)
 		r, m := e.S.Check(sym.Eq(probe, t), e.Sh.Cfg.FeasTimeoutMs, []*sym.Term{probe})
+		if r == sym.Unknown {
+			asserts := append(append([]*sym.Term{}, e.pc...), sym.Eq(probe, t))
+			e.res.Queries++
+			atomic.AddInt64(&OneShots, 1)
+			r, m = sym.RunScriptModel(sym.Primary(), sym.ScriptWithModel(asserts, []*sym.Term{probe}), time.Duration(e.Sh.Cfg.CheckTimeout)*time.Millisecond, []*sym.Term{probe})
+		}
 		if r != sym.Sat {
 			if r == sym.Unsat {
 				e.end(EndInfeasible, "no value left")
@@ -544,8 +559,19 @@ func (e *Exec) model() []NondetVal {
 		return nil
 	}
 	e.flush()
-	r, m := e.S.Check(nil, e.Sh.Cfg.CheckTimeout, e.nondets)
+	to := e.Sh.Cfg.CheckTimeout
+	if to > 10000 {
+		to = 10000
+	}
+	r, m := e.S.Check(nil, to, e.nondets)
+	if r == sym.Unknown {
+		// the incremental core gave up: a fresh one-shot solver often decides the same query
+		r, m = e.oneShot(sym.True)
+	}
 	if r != sym.Sat {
+		if d := os.Getenv("VERIF_DUMP_UNKNOWN"); d != "" {
+			os.WriteFile(fmt.Sprintf("%s/nomodel-%d.smt2", d, len(e.pc)), []byte(sym.Script(e.pc)), 0o644)
+		}
 		return nil
 	}
 	return e.modelFrom(m)
@@ -615,10 +641,15 @@ func (e *Exec) check(c *sym.Term, label string) {
 // oneShot decides pc ∧ extra with a fresh z3 process and, when sat, obtains the
 // model of the nondet variables from it.
 func (e *Exec) oneShot(extra *sym.Term) (sym.Result, map[string]uint64) {
+	return e.oneShotT(extra, e.Sh.Cfg.CheckTimeout)
+}
+
+func (e *Exec) oneShotT(extra *sym.Term, timeoutMs int) (sym.Result, map[string]uint64) {
 	asserts := append(append([]*sym.Term{}, e.pc...), extra)
 	sc := sym.ScriptWithModel(asserts, e.nondets)
 	e.res.Queries++
-	return sym.RunScriptModel(sym.Primary(), sc, time.Duration(e.Sh.Cfg.CheckTimeout)*time.Millisecond, e.nondets)
+	atomic.AddInt64(&OneShots, 1)
+	return sym.RunScriptModel(sym.Primary(), sc, time.Duration(timeoutMs)*time.Millisecond, e.nondets)
 }
 
 func (e *Exec) nondet(name string, w int) *sym.Term {
